@@ -332,7 +332,7 @@ impl<T: Engine> Block for FftFilter<T> {
 /// therefore, this Float version of the FftFilter has a little worse
 /// performance than the Complex filter.
 #[derive(rustradio_macros::Block)]
-#[rustradio(crate)]
+#[rustradio(crate, noeof)]
 pub struct FftFilterFloat<T: Engine> {
     complex: FftFilter<T>,
     #[rustradio(in)]
@@ -388,6 +388,19 @@ impl<T: Engine> FftFilterFloat<T> {
             },
             dr,
         )
+    }
+}
+
+impl<T: Engine> crate::block::BlockEOF for FftFilterFloat<T> {
+    fn eof(&mut self) -> bool {
+        use crate::stream::StreamWait;
+        // The outer input having ended is not enough: samples can still be on
+        // their way through the inner filter, waiting for output space. They
+        // are lost if the block is retired now. (Unless nobody is left to
+        // read them.)
+        let in_flight = |s: &ReadStream<Complex>| s.read_buf().map(|(b, _)| !b.is_empty()).unwrap_or(false);
+        self.src.eof()
+            && (self.dst.closed() || !(in_flight(&self.complex.src) || in_flight(&self.inner_out)))
     }
 }
 
